@@ -253,6 +253,10 @@ func resolveRoles(wd *world) (map[*types.Func]string, []*funcDecl) {
 }
 
 func main() {
+	if os.Getenv("THREAD_PROBE") != "" { // development aid: print the call sites only
+		threadProbe()
+		return
+	}
 	wd := loadWorld(pkgs)
 	registerTypeAliases(wd)
 	roles, decls := resolveRoles(wd)
@@ -487,6 +491,21 @@ func main() {
 		facts++
 	}
 	b.WriteString("]\n\n")
+	// thread affinity of the operations reserved to the committing goroutine, over the whole client (thread.go)
+	sites := threadFacts()
+	b.WriteString("/-- one entry per call site, anywhere in the node (client/** and the libraries it uses, test files excluded), of an operation of\n    UnspentDB that starts a snapshot or mutates the maps and that the snapshot protocol reserves to ONE goroutine (Save, Idle, Close,\n    CommitBlockTxs, UndoBlockTxs, PurgeUnspendable, DefragMap, AbortWriting), with the goroutines that can execute that call: 0 = only the main\n    goroutine (reached from main.main / package initialisation by synchronous calls, incl. calls through function values and through\n    dispatch-table entries whose thread flag sends them to the main loop), 1 = (also) another goroutine (target of a `go` statement,\n    a callback handed to net/http, time.AfterFunc …, a dispatch-table entry whose flag lets the dispatching goroutine call it),\n    2 = not reached from the client at all -/\ndef mainOnlyCallSites : List (String × Nat) := [")
+	for i, st := range sites {
+		if i > 0 {
+			b.WriteString(", ")
+		}
+		fmt.Fprintf(&b, "(%q, %d)", st.op, st.ctx)
+		facts++
+	}
+	b.WriteString("]\n")
+	for _, st := range sites {
+		fmt.Fprintf(&b, "-- %d %s called by %s\n", st.ctx, st.op, st.caller)
+	}
+	b.WriteString("\n")
 	b.WriteString("def all : List (String × List Ev) := [\n")
 	for i, fn := range order {
 		sep := ","
